@@ -1125,13 +1125,14 @@ Definition load_doc (numtab : list N) (root : et) : outcome V :=
   omap Vdoc (load_document numtab (load_geometry numtab) load_node root).
 
 (* SPEC: the same walk with the declarative readings of geometry (direct indexing, per-semantic
-   inputs, normalisations only) and of nodes *)
+   inputs, normalisations only) and of nodes ([read_node] gives the value; whether a top-level node
+   has to wait for a later one - or fails - is the loader's control flow) *)
+Definition read_geometry_loader (numtab : list N) (e : et) : outcome geom_view :=
+  of_option PyOther (read_geometry numtab e).
+Definition read_node_loader (en : env) (e : et) : outcome nview :=
+  match load_node en e with
+  | Ok _ => match read_node en e with Some w => Ok w | None => Raise OutOfFuel end
+  | Raise x => Raise x
+  end.
 Definition read_doc (numtab : list N) (root : et) : outcome V :=
-  omap Vdoc (load_document numtab
-               (fun e => of_option PyOther (read_geometry numtab e))
-               (fun en e => match read_node en e with
-                            | Some v => Ok v
-                            | None => (* not readable now: an instance_node that is not there yet, or an error *)
-                                      match load_node en e with Raise x => Raise x | Ok _ => Raise OutOfFuel end
-                            end)
-               root).
+  omap Vdoc (load_document numtab (read_geometry_loader numtab) read_node_loader root).
